@@ -543,7 +543,7 @@ def run(tier, seed):
     _common.use_repo()
     quick = tier != "thorough"
     col = _common.Collector(PROPERTY, tier, seed, budget_s=45 if quick else 540)
-    per_cfg = 150 if quick else 3000
+    per_cfg = 150 if quick else 2500
     cfgs = _configs(quick)
     totals = {"utterances": 0, "with_frames": 0, "refused": 0, "stray": 0, "empty_dtype": 0, "histories": 0, "calls": 0}
     # round-robin over configurations in slices, so that a time-out thins every configuration
